@@ -7,7 +7,7 @@ from vf.model import UF
 MODEL_NAMES = ["top", "design", "m_flat"]
 BB_NAMES = ["LUT4", "FDRE", "IBUF", "OBUF", "CARRY", "bb_x"]
 PORT_NAMES = ["I", "I0", "I1", "O", "Q", "D", "C", "CE", "A", "B"]
-NET_NAMES = ["n1", "n2", "n3", "net_a", "net_b", "w", "bus", "dat", "clk_i", "$auto$1"]
+NET_NAMES = ["n1", "n2", "n3", "net_a", "net_b", "w", "bus", "dat", "clk_i", "$auto$1", "mem[3]", "mem[2]"]
 TOP_PORTS = ["a", "b", "c", "clk", "rst", "y", "z", "q", "din", "dout"]
 COVERS = ["1", "0"]
 
